@@ -10,6 +10,7 @@ import (
 	"fmt"
 	"go/token"
 	"regexp"
+	"sort"
 	"strings"
 
 	"golang.org/x/tools/go/ssa"
@@ -331,7 +332,8 @@ func c04NStepRuleAt(p *Prog, r *Report, rule string, fn *ssa.Function, at ssa.In
 	kmax := "param:" + bpar.Name() + "." + maxF
 	var good, bad []*c04Path
 	parsedStep := false
-	otherEnd := 0 // paths whose end value is of a kind the rule does not classify
+	stepLeaves := map[ssa.Value]bool{} // the values a parsed step can be
+	otherEnd := 0                      // paths whose end value is of a kind the rule does not classify
 	for _, pa := range paths {
 		a0, a1, a2 := get(pa)
 		if a0 == nil || a1 == nil || a2 == nil {
@@ -342,6 +344,7 @@ func c04NStepRuleAt(p *Prog, r *Report, rule string, fn *ssa.Function, at ssa.In
 			continue // no step part on this path
 		}
 		parsedStep = true
+		stepLeaves[a2] = true
 		if _, isK := a0.(*ssa.Const); isK || pv.key(a0) == kmin {
 			continue // '*' / '?': the range already is min-max
 		}
@@ -367,6 +370,7 @@ func c04NStepRuleAt(p *Prog, r *Report, rule string, fn *ssa.Function, at ssa.In
 	if !parsedStep {
 		return false
 	}
+	c04NumericStep(p, r, fn, at, construct, stepLeaves, bpar)
 	describe := func(pa *c04Path, step ssa.Value) (string, bool) {
 		// the decisions of the path that look at the step value
 		var deps []string
@@ -475,4 +479,58 @@ func c04SingleViaHelper(p *Prog, pa *c04Path, a0, a1 ssa.Value) bool {
 		}
 	}
 	return false
+}
+
+// c04NumericStep (C04.P6-numeric-step): the step of a range is a number. The
+// values a parsed step can take (per path, through helpers) must never be the
+// result of a lookup in the field's name table: 'jan', 'mon' ... are values of
+// the month / weekday fields, not step sizes, and the property wants
+// non-numeric steps refused.
+func c04NumericStep(p *Prog, r *Report, fn *ssa.Function, at ssa.Instruction, construct string, leaves map[ssa.Value]bool, bpar *ssa.Parameter) {
+	rule := "C04.P6-numeric-step"
+	construct = strings.Replace(construct, ": N/step extends to max", ": step is numeric", 1)
+	tb := newC04TermBuilder(p)
+	root := tb.Root(fn)
+	fromNames := false
+	unknown := ""
+	var where ssa.Value
+	var vals []ssa.Value
+	for v := range leaves {
+		vals = append(vals, v)
+	}
+	sort.Slice(vals, func(i, j int) bool { return vals[i].Pos() < vals[j].Pos() })
+	for _, v := range vals {
+		t := tb.Term(root, v)
+		t.walk(func(x *c04T) {
+			switch x.Op {
+			case "lookup":
+				// a map lookup: is the map the name table of the field-table parameter?
+				if len(x.Args) > 0 && x.Args[0].contains(func(y *c04T) bool {
+					return y.Op == "load" && len(y.Args) == 1 && bpar != nil && y.Args[0].Op == "leaf" && y.Args[0].Name == "param:"+bpar.Name()
+				}) {
+					fromNames = true
+					where = v
+				}
+			case "unknown":
+				if x.Name != "loop-carried value" {
+					unknown = x.Name
+				}
+			}
+		})
+	}
+	switch {
+	case fromNames:
+		r.Violation(rule, construct, p.Pos(instrPos(at)), "the step after '/' can be the result of a lookup in the field's name table ("+c04ValuePos(p, where)+"): names are accepted as step sizes — '*/feb', '2/DEC', 'mon-fri/wed' are given a meaning (steps 2, 12, 3) instead of being refused as non-numeric")
+	case unknown != "":
+		r.Undecide("%s: where the step value comes from is not fully visible (%s)", construct, unknown)
+	default:
+		r.OK(rule, construct, p.Pos(instrPos(at)), "every parsed step is the result of a numeric parse, never of a name lookup")
+	}
+}
+
+func c04ValuePos(p *Prog, v ssa.Value) string {
+	if in, ok := v.(ssa.Instruction); ok {
+		return p.Pos(instrPos(in))
+	}
+	return p.Pos(v.Pos())
 }
